@@ -41,6 +41,10 @@ type Req struct {
 	// written to it: the write that crosses the mark is partial and fails, later
 	// writes fail outright. Resp.Body then holds what crossed the wire.
 	HangUpAfter int
+	// SlowPeer: the simulated peer drains the response slowly — every write
+	// to the response body is a scheduling point ("peer.slow-read"), so other
+	// tasks can run while this response is half written.
+	SlowPeer bool
 }
 
 // cutWriter is a ResponseWriter whose peer goes away mid-body.
@@ -63,6 +67,23 @@ func (c *cutWriter) Write(p []byte) (int, error) {
 	}
 	c.left -= len(p)
 	return c.ResponseRecorder.Write(p)
+}
+
+// slowWriter is a response writer whose peer reads slowly: each body write is
+// a scheduling point.
+type slowWriter struct {
+	http.ResponseWriter
+}
+
+func (s *slowWriter) Write(p []byte) (int, error) {
+	yield("peer.slow-read")
+	return s.ResponseWriter.Write(p)
+}
+
+func (s *slowWriter) Flush() {
+	if f, ok := s.ResponseWriter.(http.Flusher); ok {
+		f.Flush()
+	}
 }
 
 // RequestContext, when set, supplies the context of every simulated request
@@ -101,6 +122,9 @@ func Do(h http.Handler, rq Req) (resp *Resp) {
 	if rq.HangUpAfter > 0 {
 		cw = &cutWriter{ResponseRecorder: w, left: rq.HangUpAfter}
 		rw = cw
+	}
+	if rq.SlowPeer {
+		rw = &slowWriter{ResponseWriter: rw}
 	}
 	func() {
 		defer func() {
